@@ -61,7 +61,7 @@ def modelWriters : List (W × Ev) := [
   (⟨"simulator/file_system/file.py", "File.repair", "health_status", "assign", "self.health_status", "FileSystemItemHealthStatus.GOOD", "not (self.deleted) && self.health_status == FileSystemItemHealthStatus.CORRUPT"⟩, .fileRepair),
   (⟨"simulator/file_system/file.py", "File.restore", "health_status", "assign", "self.health_status", "FileSystemItemHealthStatus.GOOD", "not (self.deleted) && self.health_status == FileSystemItemHealthStatus.CORRUPT"⟩, .fileRestore),
   (⟨"simulator/file_system/file.py", "File.reveal_to_red", "revealed_to_red", "assign", "self.revealed_to_red", "True", "not (self.deleted)"⟩, .outOfScope),
-  (⟨"simulator/file_system/file.py", "File.scan", "visible_health_status", "assign", "self.visible_health_status", "self.health_status", "not (self.deleted)"⟩, .fileScan),
+  (⟨"simulator/file_system/file.py", "File.scan", "visible_health_status", "assign", "self.visible_health_status", "self.health_status", "<translated: C14GenScan>"⟩, .fileScan),
   (⟨"simulator/file_system/file_system.py", "FileSystem.copy_file", "*", "copy", "File", "file.model_dump(exclude={'uuid', 'folder_id', 'folder_name', 'sim_path'})", "file"⟩, .fileCopy),
   (⟨"simulator/file_system/file_system_item_abc.py", "FileSystemItemABC", "health_status", "default", "health_status", "FileSystemItemHealthStatus.GOOD", ""⟩, .construct),
   (⟨"simulator/file_system/file_system_item_abc.py", "FileSystemItemABC", "revealed_to_red", "default", "revealed_to_red", "False", ""⟩, .construct),
@@ -74,10 +74,10 @@ def modelWriters : List (W × Ev) := [
   (⟨"simulator/file_system/folder.py", "Folder._restoring_timestep", "restore_countdown", "augSub", "self.restore_countdown", "1", "self.restore_countdown >= 0"⟩, .folderRestoreTick),
   (⟨"simulator/file_system/folder.py", "Folder._reveal_to_red_timestep", "red_scan_countdown", "augSub", "self.red_scan_countdown", "1", "self.red_scan_countdown >= 0"⟩, .outOfScope),
   (⟨"simulator/file_system/folder.py", "Folder._reveal_to_red_timestep", "revealed_to_red", "assign", "self.revealed_to_red", "True", "self.red_scan_countdown >= 0 && self.red_scan_countdown == 0"⟩, .outOfScope),
-  (⟨"simulator/file_system/folder.py", "Folder._scan_timestep", "_scanned_this_step", "assign", "self._scanned_this_step", "True", "self.scan_countdown >= 0 && self.scan_countdown == 0"⟩, .folderScanTick),
-  (⟨"simulator/file_system/folder.py", "Folder._scan_timestep", "health_status", "assign", "self.health_status", "FileSystemItemHealthStatus(max([f.health_status.value for f in self.files.values()] or [0]))", "self.scan_countdown >= 0 && self.scan_countdown == 0"⟩, .folderScanTick),
-  (⟨"simulator/file_system/folder.py", "Folder._scan_timestep", "scan_countdown", "augSub", "self.scan_countdown", "1", "self.scan_countdown >= 0"⟩, .folderScanTick),
-  (⟨"simulator/file_system/folder.py", "Folder._scan_timestep", "visible_health_status", "assign", "self.visible_health_status", "self.health_status", "self.scan_countdown >= 0 && self.scan_countdown == 0"⟩, .folderScanTick),
+  (⟨"simulator/file_system/folder.py", "Folder._scan_timestep", "_scanned_this_step", "assign", "self._scanned_this_step", "True", "<translated: C14GenScan>"⟩, .folderScanTick),
+  (⟨"simulator/file_system/folder.py", "Folder._scan_timestep", "health_status", "assign", "self.health_status", "FileSystemItemHealthStatus(max([f.health_status.value for f in self.files.values()] or [0]))", "<translated: C14GenScan>"⟩, .folderScanTick),
+  (⟨"simulator/file_system/folder.py", "Folder._scan_timestep", "scan_countdown", "augSub", "self.scan_countdown", "1", "<translated: C14GenScan>"⟩, .folderScanTick),
+  (⟨"simulator/file_system/folder.py", "Folder._scan_timestep", "visible_health_status", "assign", "self.visible_health_status", "self.health_status", "<translated: C14GenScan>"⟩, .folderScanTick),
   (⟨"simulator/file_system/folder.py", "Folder.corrupt", "health_status", "assign", "self.health_status", "FileSystemItemHealthStatus.CORRUPT", "not (self.deleted)"⟩, .folderCorrupt),
   (⟨"simulator/file_system/folder.py", "Folder.pre_timestep", "_scanned_this_step", "assign", "self._scanned_this_step", "False", ""⟩, .folderPre),
   (⟨"simulator/file_system/folder.py", "Folder.repair", "health_status", "assign", "self.health_status", "FileSystemItemHealthStatus.GOOD", "not (self.deleted)"⟩, .folderRepair),
@@ -86,9 +86,9 @@ def modelWriters : List (W × Ev) := [
   (⟨"simulator/file_system/folder.py", "Folder.restore", "restore_countdown", "assign", "self.restore_countdown", "max(self.restore_duration, 1)", "self.restore_countdown <= 0"⟩, .folderRestoreStart),
   (⟨"simulator/file_system/folder.py", "Folder.reveal_to_red", "red_scan_countdown", "assign", "self.red_scan_countdown", "self.red_scan_duration", "not (self.deleted) && not (instant_scan) && self.red_scan_countdown <= 0"⟩, .outOfScope),
   (⟨"simulator/file_system/folder.py", "Folder.reveal_to_red", "revealed_to_red", "assign", "self.revealed_to_red", "True", "not (self.deleted) && instant_scan"⟩, .outOfScope),
-  (⟨"simulator/file_system/folder.py", "Folder.scan", "_scanned_this_step", "assign", "self._scanned_this_step", "True", "not (self.deleted) && instant_scan"⟩, .folderInstantScan),
-  (⟨"simulator/file_system/folder.py", "Folder.scan", "scan_countdown", "assign", "self.scan_countdown", "max(self.scan_duration, 1)", "not (self.deleted) && not (instant_scan) && self.scan_countdown <= 0"⟩, .folderScanStart),
-  (⟨"simulator/file_system/folder.py", "Folder.scan", "visible_health_status", "assign", "self.visible_health_status", "FileSystemItemHealthStatus.CORRUPT", "not (self.deleted) && instant_scan && for file_id in self.files && file.visible_health_status == FileSystemItemHealthStatus.CORRUPT"⟩, .folderInstantScan),
+  (⟨"simulator/file_system/folder.py", "Folder.scan", "_scanned_this_step", "assign", "self._scanned_this_step", "True", "<translated: C14GenScan>"⟩, .folderInstantScan),
+  (⟨"simulator/file_system/folder.py", "Folder.scan", "scan_countdown", "assign", "self.scan_countdown", "max(self.scan_duration, 1)", "<translated: C14GenScan>"⟩, .folderScanStart),
+  (⟨"simulator/file_system/folder.py", "Folder.scan", "visible_health_status", "assign", "self.visible_health_status", "FileSystemItemHealthStatus.CORRUPT", "<translated: C14GenScan>"⟩, .folderInstantScan),
   (⟨"simulator/network/hardware/base.py", "Node", "node_scan_countdown", "default", "node_scan_countdown", "0", ""⟩, .construct),
   (⟨"simulator/network/hardware/base.py", "Node", "red_scan_countdown", "default", "red_scan_countdown", "0", ""⟩, .construct),
   (⟨"simulator/network/hardware/base.py", "Node.ConfigSchema", "revealed_to_red", "default", "revealed_to_red", "False", ""⟩, .construct),
@@ -101,7 +101,7 @@ def modelWriters : List (W × Ev) := [
   (⟨"simulator/network/hardware/base.py", "Node.power_off", "shut_down_countdown", "assign", "self.config.shut_down_countdown", "self.config.shut_down_duration", "not (self.config.shut_down_duration <= 0) && self.operating_state == NodeOperatingState.ON"⟩, .nodePowerOff),
   (⟨"simulator/network/hardware/base.py", "Node.power_on", "start_up_countdown", "assign", "self.config.start_up_countdown", "self.config.start_up_duration", "not (self.config.start_up_duration <= 0) && self.operating_state == NodeOperatingState.OFF"⟩, .nodePowerOn),
   (⟨"simulator/network/hardware/base.py", "Node.reveal_to_red", "red_scan_countdown", "assign", "self.red_scan_countdown", "self.config.node_scan_duration", ""⟩, .nodeRedScan),
-  (⟨"simulator/network/hardware/base.py", "Node.scan", "node_scan_countdown", "assign", "self.node_scan_countdown", "max(self.config.node_scan_duration, 1)", ""⟩, .nodeScanStart),
+  (⟨"simulator/network/hardware/base.py", "Node.scan", "node_scan_countdown", "assign", "self.node_scan_countdown", "max(self.config.node_scan_duration, 1)", "<translated: C14GenScan>"⟩, .nodeScanStart),
   (⟨"simulator/system/applications/application.py", "Application", "install_countdown", "default", "install_countdown", "None", ""⟩, .construct),
   (⟨"simulator/system/applications/application.py", "Application.apply_timestep", "health_state_actual", "assign", "self.health_state_actual", "SoftwareHealthState.GOOD", "self.operating_state is ApplicationOperatingState.INSTALLING && self.install_countdown <= 0"⟩, .appInstallTick),
   (⟨"simulator/system/applications/application.py", "Application.apply_timestep", "install_countdown", "assign", "self.install_countdown", "None", "self.operating_state is ApplicationOperatingState.INSTALLING && self.install_countdown <= 0"⟩, .appInstallTick),
@@ -135,7 +135,7 @@ def modelWriters : List (W × Ev) := [
   (⟨"simulator/system/software.py", "Software.fix", "_fixing_countdown", "assign", "self._fixing_countdown", "self.config.fixing_duration", "self.health_state_actual in (SoftwareHealthState.COMPROMISED, SoftwareHealthState.GOOD)"⟩, .swFixStart),
   (⟨"simulator/system/software.py", "Software.fix", "health_state_actual", "call", "self.set_health_state", "SoftwareHealthState.FIXING", "self.health_state_actual in (SoftwareHealthState.COMPROMISED, SoftwareHealthState.GOOD)"⟩, .swFixStart),
   (⟨"simulator/system/software.py", "Software.reveal_to_red", "revealed_to_red", "assign", "self.revealed_to_red", "True", ""⟩, .outOfScope),
-  (⟨"simulator/system/software.py", "Software.scan", "health_state_visible", "assign", "self.health_state_visible", "self.health_state_actual", ""⟩, .swScan),
+  (⟨"simulator/system/software.py", "Software.scan", "health_state_visible", "assign", "self.health_state_visible", "self.health_state_actual", "<translated: C14GenScan>"⟩, .swScan),
   (⟨"simulator/system/software.py", "Software.set_health_state", "health_state_actual", "assign", "self.health_state_actual", "health_state", ""⟩, .swSetter)
 ]
 
